@@ -6,6 +6,7 @@ import (
 	"fmt"
 	"math"
 	"runtime"
+	"sync"
 	"sync/atomic"
 	"testing"
 	"testing/synctest"
@@ -34,7 +35,7 @@ type Plan struct {
 	SrcErrAt      int    `json:"src_err_at"`
 	FErrAt        []int  `json:"f_err_at,omitempty"`
 	FErrKind      int    `json:"f_err_kind,omitempty"` // 0 plain sentinel, 1 wraps context.Canceled, 2 wraps context.DeadlineExceeded
-	Timeouts      []int  `json:"timeouts,omitempty"` // ms per consumer call (0 = no deadline), cycled
+	Timeouts      []int  `json:"timeouts,omitempty"`   // ms per consumer call (0 = no deadline), cycled
 	CloseAfter    int    `json:"close_after"`
 	CtorCancelled bool   `json:"ctor_cancelled,omitempty"`
 	SrcGap        int    `json:"src_gap,omitempty"`
@@ -42,6 +43,11 @@ type Plan struct {
 	// SrcBlockAt (MapStream, only together with a failing f): once that many (>= 1) items are out the source
 	// has nothing more for now and blocks until its context ends - a live but idle source. 0 = never.
 	SrcBlockAt int `json:"src_block_at,omitempty"`
+	// Lockstep (MapIterator): the source only produces item k+1 once the consumer has been handed result k
+	// (a source fed by what the consumer does with the results)
+	Lockstep bool `json:"lockstep,omitempty"`
+	// CtorCancelAtMs (MapStream): the context given to MapStream itself is cancelled that long after the start
+	CtorCancelAtMs int `json:"ctor_cancel_at_ms,omitempty"`
 }
 
 func genPlan(streamKind bool) func(t *rapid.T) Plan {
@@ -84,6 +90,11 @@ func genPlan(streamKind bool) func(t *rapid.T) Plan {
 				p.CloseAfter = rapid.IntRange(0, p.Len).Draw(t, "closeafter")
 			}
 			p.CtorCancelled = rapid.IntRange(0, 11).Draw(t, "ctorcancel") == 0
+			if !p.CtorCancelled && rapid.IntRange(0, 5).Draw(t, "ctorcancelat") == 0 {
+				p.CtorCancelAtMs = rapid.SampledFrom([]int{1, 3, 10, 40, 200}).Draw(t, "ctorcancelms")
+			}
+		} else {
+			p.Lockstep = rapid.IntRange(0, 3).Draw(t, "lockstep") == 0
 		}
 		return p
 	}
@@ -111,6 +122,7 @@ type countIter struct {
 	pos    atomic.Int64
 	gap    time.Duration
 	pulled atomic.Int64
+	tokens chan struct{} // lockstep: one token per result the consumer has been handed (plus one to start)
 }
 
 func (c *countIter) Next() (int, bool) {
@@ -120,6 +132,9 @@ func (c *countIter) Next() (int, bool) {
 	i := int(c.pos.Load())
 	if i >= c.n {
 		return 0, false
+	}
+	if c.tokens != nil {
+		<-c.tokens
 	}
 	c.pos.Add(1)
 	c.pulled.Add(1)
@@ -193,6 +208,10 @@ func run(p Plan) (vk.Outcome, error) {
 		yielded := 0
 		if !p.Stream {
 			src := &countIter{n: p.Len, gap: time.Duration(p.SrcGap) * time.Millisecond}
+			if p.Lockstep {
+				src.tokens = make(chan struct{}, p.Len+1)
+				src.tokens <- struct{}{}
+			}
 			it := parallel.MapIterator[int, int](src, p.Par, p.Buf, func(i int) int { body(i); return fval(i) })
 			for {
 				time.Sleep(time.Duration(p.Pace[yielded%len(p.Pace)]) * time.Millisecond)
@@ -212,6 +231,9 @@ func run(p Plan) (vk.Outcome, error) {
 					return vk.Violf("order", "result #%d is %d, want f(item %d) = %d", yielded, v, yielded, fval(yielded))
 				}
 				yielded++
+				if src.tokens != nil {
+					src.tokens <- struct{}{} // result k has been handed over: the source may produce item k+1
+				}
 				if yielded > p.Len {
 					return vk.Violf("extra", "more results than source items")
 				}
@@ -242,6 +264,22 @@ func run(p Plan) (vk.Outcome, error) {
 			defer ctorCancel()
 			if p.CtorCancelled {
 				ctorCancel()
+			}
+			if p.CtorCancelAtMs > 0 {
+				quitC := make(chan struct{})
+				var cw sync.WaitGroup
+				cw.Add(1)
+				go func() {
+					defer cw.Done()
+					tm := time.NewTimer(time.Duration(p.CtorCancelAtMs) * time.Millisecond)
+					defer tm.Stop()
+					select {
+					case <-tm.C:
+						ctorCancel()
+					case <-quitC:
+					}
+				}()
+				defer func() { close(quitC); cw.Wait() }() // (the fake clock stops when the bubble's root returns)
 			}
 			ms := parallel.MapStream[int, int](ctorCtx, src, p.Par, p.Buf, func(ctx context.Context, i int) (int, error) {
 				body(i)
@@ -330,7 +368,7 @@ func run(p Plan) (vk.Outcome, error) {
 							ok = true
 						}
 					}
-					if p.CtorCancelled && errors.Is(final, context.Canceled) {
+					if (p.CtorCancelled || p.CtorCancelAtMs > 0) && errors.Is(final, context.Canceled) {
 						ok = true
 					}
 					if !ok {
@@ -584,4 +622,78 @@ func TestMapFinishStorm(t *testing.T) {
 	suite.Crashy = true
 	vk.Run(t, suite, "map-finish-storm", 30, genFinishStorm, runFinishStorm)
 	suite.Crashy = false
+}
+
+// ---------------------------------------------------------------- lockstep source on the real clock
+//
+// A source that produces item k+1 only after the consumer has been handed result k. If the library waits
+// for the source while it holds something the consumer's Next needs (a sync.Mutex, typically), the two
+// wait for each other - a kind of wait a synctest bubble can neither see as a deadlock nor wait out, so
+// this kind runs on real goroutines with a 5 s limit per Next (on the active clock).
+
+type LockstepPlan struct {
+	Stream bool `json:"stream"`
+	N      int  `json:"n"`
+	Par    int  `json:"par"`
+	Buf    int  `json:"buf"`
+}
+
+func genLockstep(t *rapid.T) LockstepPlan {
+	return LockstepPlan{Stream: rapid.Bool().Draw(t, "stream"), N: rapid.IntRange(2, 40).Draw(t, "n"),
+		Par: rapid.SampledFrom([]int{-1, 1, 2, 4}).Draw(t, "par"), Buf: rapid.SampledFrom([]int{-1, 0, 1, 2, 5, 16}).Draw(t, "buf")}
+}
+
+func runLockstep(p LockstepPlan) (vk.Outcome, error) {
+	var out vk.Outcome
+	src := &countIter{n: p.N, tokens: make(chan struct{}, p.N+1)}
+	src.tokens <- struct{}{}
+	var next func() (int, bool, error)
+	closer := func() {}
+	if !p.Stream {
+		it := parallel.MapIterator[int, int](src, p.Par, p.Buf, func(x int) int { return fval(x) })
+		next = func() (int, bool, error) { v, ok := it.Next(); return v, ok, nil }
+	} else {
+		s := parallel.MapStream[int, int](context.Background(), stream.FromIterator[int](src), p.Par, p.Buf,
+			func(_ context.Context, x int) (int, error) { return fval(x), nil })
+		next = func() (int, bool, error) {
+			v, err := s.Next(context.Background())
+			if err == stream.End {
+				return 0, false, nil
+			}
+			return v, err == nil, err
+		}
+		closer = s.Close
+	}
+	for k := 0; ; k++ {
+		var v int
+		var ok bool
+		var err error
+		done := make(chan struct{})
+		go func() { v, ok, err = next(); close(done) }()
+		select {
+		case <-done:
+		case <-vk.After(5 * time.Second):
+			return out, vk.Violf("stuck", "Next #%d has not returned after 5 s: the source produces item %d as soon as result %d has been handed over, which has happened (n=%d parallelism=%d buffer=%d)", k, k, k-1, p.N, p.Par, p.Buf)
+		}
+		if err != nil {
+			return out, vk.Violf("spurious-error", "Next #%d: %v", k, err)
+		}
+		if !ok {
+			if k != p.N {
+				return out, vk.Violf("lost", "ended after %d of %d results", k, p.N)
+			}
+			break
+		}
+		if v != fval(k) {
+			return out, vk.Violf("order", "result #%d is %d, want %d", k, v, fval(k))
+		}
+		src.tokens <- struct{}{}
+	}
+	closer()
+	out.NonTrivial = p.Par != 1
+	return out, nil
+}
+
+func TestMapLockstepSource(t *testing.T) {
+	vk.Run(t, suite, "map-lockstep", 40, genLockstep, runLockstep)
 }
